@@ -115,11 +115,11 @@ def run(ctx):
     st_ = isv.call_blocks('tako::internal::server::start::server_start') or isv.call_blocks(lambda c: c.endswith('::server_start'))
     ctx.require(st_, 'R11.4: server_start call')
     tt = isv.term[st_[0]]
-    okw = any(_derives_named(isv, op_local(a), 'worker_id_initial_value') for a in tt['args'] if op_local(a) is not None)
+    okw = any(_derives_named(isv, op_local(a), 'worker_id_initial_value', 'ids::WorkerId') for a in tt['args'] if op_local(a) is not None)
     ctx.ob('R11.4', 'initialize_server|worker id -> server_start', okw, 'server_start receives worker_id_initial_value', isv.loc(st_[0]))
     cas = isv.call_blocks(lambda c: c.endswith('::create_autoalloc_service'))
     ctx.require(cas, 'R11.4: create_autoalloc_service call')
-    okq = any(_derives_named(isv, op_local(a), 'queue_id_initial_value') for a in isv.term[cas[0]]['args'] if op_local(a) is not None)
+    okq = any(_derives_named(isv, op_local(a), 'queue_id_initial_value', 'u32') for a in isv.term[cas[0]]['args'] if op_local(a) is not None)
     ctx.ob('R11.4', 'initialize_server|queue id -> autoalloc', okq, 'create_autoalloc_service receives queue_id_initial_value', isv.loc(cas[0]))
     # tako: server_start -> CoreRef::new -> Core.worker_id_counter
     corenew = [b for b in prog.find_bodies(r'^tako::internal::server::core::<impl tako::internal::common::wrapped::WrappedRcRefCell>::new$')]
